@@ -520,4 +520,181 @@ theorem parseHeadNormal_encHead (k : InfoKind) (hk : k ≠ .info6ExMore) (i : Se
     simp [readHead, checkHead, rVersion, rName, rMap, rGt, rFlags, rNp, rMp, rNc, rMc, tV, tN, tM, tG, id, Version.exceedsMax, rHost, tH, rP]
     try (rw [if_neg]; all_goals first | rfl | omega)
 
+/-! ### whole datagram payloads -/
+
+/-- the `received` mask the parser gives a packet of kind `k` with `n` clients from slot `offset` -/
+def maskFor (k : InfoKind) (offset n : Nat) : Nat :=
+  match k with
+  | .info6Ex => 1
+  | .info664 => rangeMask offset n
+  | _ => 0
+
+/-- payload of a normal (non-`iex+`) info packet of kind `k` -/
+def encInfo (k : InfoKind) (i : ServerInfo) (offset : Nat) : List UInt8 :=
+  putInt k i.token
+    (encHead k i offset ((if k.received.version.hasExtraInfo then putStr [] else id) (encClients k i.clients [])))
+
+/-- payload of an `iex+` packet -/
+def encMore (token : Int) (no : Nat) (cs : List ClientInfo) : List UInt8 :=
+  putInt .info6ExMore token (putInt .info6ExMore (no : Int) (putStr [] (encClients .info6ExMore cs [])))
+
+theorem serverInfo_eta (i : ServerInfo) : { i with clients := i.clients } = i := by cases i; rfl
+
+theorem parseBody_enc (hs : SLOT_SKIP_FROM = RECEIVED_BITS) (k : InfoKind) (info : ServerInfo) (packetNo offset : Nat)
+    (cs : List ClientInfo) (hc : ∀ c ∈ cs, ClientOk k c) (hp : packetNo < RECEIVED_BITS)
+    (hslots : k.received.version = .v664 → offset + cs.length ≤ RECEIVED_BITS) :
+    parseBody k.reader k.received.version info packetNo offset
+        ((if k.received.version.hasExtraInfo then putStr [] else id) (encClients k cs []))
+      = .ok (some { info := { info with clients := cs },
+                    received := if k.received.version = .v664 then rangeMask offset cs.length
+                                else if k.received.version = .v6Ex then 1 <<< packetNo else 0 }) := by
+  unfold parseBody
+  have hextra : skipExtra k.received.version
+      ((if k.received.version.hasExtraInfo then putStr [] else id) (encClients k cs [])) = some (encClients k cs []) := by
+    unfold skipExtra
+    by_cases he : k.received.version.hasExtraInfo = true
+    · simp only [he, if_true, readStr_putStr (goodStr_nil 0)]
+    · simp only [he, if_false, id, Bool.false_eq_true]
+  simp only [hextra]
+  have hfuel := encClients_length k cs
+  by_cases hv : k.received.version = .v6Ex
+  · have h664 : ¬ k.received.version = .v664 := by rw [hv]; decide
+    simp only [hv, if_true, shl1_ok hp]
+    have := parseClients_encClients hs k cs hc ((encClients k cs []).length + 1) offset [] (1 <<< packetNo) (by omega)
+      (fun h => absurd h h664)
+    simp only [hv, List.nil_append] at this
+    rw [this]
+    simp
+  · simp only [hv, if_false]
+    have := parseClients_encClients hs k cs hc ((encClients k cs []).length + 1) offset [] 0 (by omega) hslots
+    simp only [List.nil_append] at this
+    rw [this]
+    by_cases h664 : k.received.version = .v664
+    · simp [h664]
+    · simp [h664]
+
+theorem received_normal {k : InfoKind} (hk : k ≠ .info6ExMore) : k.received = .normal k.received.version := by
+  cases k <;> first | rfl | exact absurd rfl hk
+
+/-- **Round trip, normal packets.** Parsing the encoding of an info that is representable in kind `k`
+(`HeadOk`, `ClientOk`) returns exactly that info, with the mask of its clients' slots. -/
+theorem parsePartial_encInfo (hs : SLOT_SKIP_FROM = RECEIVED_BITS) (k : InfoKind) (hk : k ≠ .info6ExMore) (i : ServerInfo)
+    (offset : Nat) (h : HeadOk k i offset) (hc : ∀ c ∈ i.clients, ClientOk k c)
+    (hslots : k = .info664 → offset + i.clients.length ≤ RECEIVED_BITS) :
+    parsePartial k (encInfo k i offset) = .ok (some { info := i, received := maskFor k offset i.clients.length }) := by
+  unfold parsePartial parseServerInfo encInfo
+  rw [reader_putInt k i.token h.token]
+  simp only
+  have hb := parseBody_enc hs k { i with clients := [] } 0 offset i.clients hc (by decide)
+    (fun hv => hslots (by cases k <;> first | rfl | (simp at hv)))
+  have hh := parseHeadNormal_encHead k hk i offset h
+    ((if k.received.version.hasExtraInfo then putStr [] else id) (encClients k i.clients []))
+  generalize hrv : k.received = rv at *
+  cases rv with
+  | v6ExMore => cases k <;> first | exact absurd rfl hk | cases hrv
+  | normal ver =>
+    have hver : k.received.version = ver := by rw [hrv]; rfl
+    simp only [Received.version] at hh hb ⊢
+    rw [hh]
+    simp only
+    rw [hb]
+    have hi : ({ i with clients := [] } : ServerInfo) = { i with clients := [] } := rfl
+    congr 2
+    refine PartialInfo.mk.injEq _ _ _ _ ▸ ⟨?_, ?_⟩
+    · cases i; rfl
+    · cases k <;> first | rfl | exact absurd rfl hk | (cases hrv; simp [maskFor]) 
+
+/-- **Round trip, `iex+` packets.** -/
+theorem parsePartial_encMore (hs : SLOT_SKIP_FROM = RECEIVED_BITS) (hg : PACKET_NO_REJECT_FROM ≤ RECEIVED_BITS)
+    (token : Int) (htok : inI32 token) (no : Nat) (hlo : PACKET_NO_MIN ≤ no) (hhi : no < PACKET_NO_REJECT_FROM)
+    (cs : List ClientInfo) (hc : ∀ c ∈ cs, ClientOk .info6ExMore c) :
+    parsePartial .info6ExMore (encMore token no cs)
+      = .ok (some { info := (moreHdr token).withClients cs, received := 1 <<< no }) := by
+  have h64 : RECEIVED_BITS = 64 := rfl
+  have hno : inI32 (no : Int) := by unfold inI32; omega
+  unfold parsePartial parseServerInfo encMore
+  rw [reader_putInt .info6ExMore token htok]
+  simp only [InfoKind.received]
+  unfold parseHeadMore
+  rw [reader_putInt .info6ExMore (no : Int) hno]
+  have hcond : ¬ ((no : Int) < (PACKET_NO_MIN : Int) ∨ (no : Int) ≥ (PACKET_NO_REJECT_FROM : Int)) := by omega
+  simp only [Option.bind_eq_bind, Option.bind_some, hcond, if_false, Option.pure_def, Int.toNat_natCast]
+  have hb := parseBody_enc hs .info6ExMore { infoVersion := .v6Ex, token := token } no 0 cs hc (by omega)
+    (fun hv => by simp at hv)
+  simp only [version_info6ExMore, hasExtraInfo_v6Ex, if_true] at hb
+  rw [hb]
+  simp [moreHdr, ServerInfo.withClients]
+
+/-- **Round trip, single-packet kinds** (`Info5/6/6Ddper/7Response::parse`): the info comes back with
+its clients sorted. -/
+theorem parseFull_encInfo (hs : SLOT_SKIP_FROM = RECEIVED_BITS) (k : InfoKind) (hk : k ≠ .info6ExMore) (i : ServerInfo)
+    (offset : Nat) (h : HeadOk k i offset) (hc : ∀ c ∈ i.clients, ClientOk k c)
+    (hslots : k = .info664 → offset + i.clients.length ≤ RECEIVED_BITS) :
+    parseFull k (encInfo k i offset) = .ok (some { i with clients := sortClients i.clients }) := by
+  unfold parseFull
+  rw [parsePartial_encInfo hs k hk i offset h hc hslots]
+
+/-! ### the parts of a family on the wire -/
+
+theorem HeadOk.withClients {k : InfoKind} {i : ServerInfo} {o : Nat} (h : HeadOk k i o) (cs : List ClientInfo) :
+    HeadOk k (i.withClients cs) o :=
+  ⟨h.ver, h.token, h.version, h.name, h.map, h.gameType, h.flags, h.hostname, h.mapInfo, h.progression, h.skill,
+    h.counts, h.maxClients, h.plainCounts, h.offset⟩
+
+namespace Family
+
+/-- the response kind part `i` travels in -/
+def kind (f : Family) (i : Nat) : InfoKind :=
+  if f.ex then (if i = 0 then .info6Ex else .info6ExMore) else .info664
+
+/-- the datagram payload of part `i` -/
+def encodePart (f : Family) (i : Nat) : List UInt8 :=
+  if f.ex then
+    (if i = 0 then encInfo .info6Ex (f.hdr.withClients (f.chunk i)) 0 else encMore f.hdr.token (f.no i) (f.chunk i))
+  else encInfo .info664 (f.hdr.withClients (f.chunk i)) (f.offset i)
+
+/-- every field of the family fits its wire representation -/
+structure Encodable (f : Family) : Prop where
+  head : ∀ i < f.size, HeadOk (if f.ex then .info6Ex else .info664) f.hdr (if f.ex then 0 else f.offset i)
+  clients : ∀ i < f.size, ∀ c ∈ f.chunk i, ClientOk (f.kind i) c
+
+theorem offset_size (f : Family) : f.offset f.size = f.allClients.length := by
+  simp [offset, allClients, List.length_flatMap]
+
+/-- **Round trip for the parts of a family**: the accumulator values `Family.part i` the merge
+theorems talk about are exactly what the parser returns for the datagrams a server sends. -/
+theorem parse_encodePart (hs : SLOT_SKIP_FROM = RECEIVED_BITS) (hg : PACKET_NO_REJECT_FROM = RECEIVED_BITS)
+    (hmin : PACKET_NO_MIN = 1) (f : Family) (hwf : f.WellFormed) (henc : f.Encodable) (i : Nat) (hi : i < f.size) :
+    parsePartial (f.kind i) (f.encodePart i) = .ok (some (f.part i)) := by
+  obtain ⟨hhead, hclients⟩ := henc
+  have hh := hhead i hi
+  have hcl := hclients i hi
+  unfold kind encodePart part at *
+  cases hex : f.ex with
+  | false =>
+    simp only [hex, Bool.false_eq_true, if_false] at hh hcl ⊢
+    have hslot : f.offset i + (f.chunk i).length ≤ RECEIVED_BITS := by
+      have h1 := hwf.2.2.2.2.2 hex
+      have h2 : f.offset i + (f.chunk i).length ≤ f.offset f.size := f.offset_mono hi
+      rw [f.offset_size] at h2
+      omega
+    rw [parsePartial_encInfo hs .info664 (by decide) (f.hdr.withClients (f.chunk i)) (f.offset i) (hh.withClients _) hcl (fun _ => hslot)]
+    rfl
+  | true =>
+    simp only [hex, if_true] at hh hcl ⊢
+    obtain ⟨hno, _⟩ := hwf.2.2.2.2.1 hex
+    by_cases h0 : i = 0
+    · subst h0
+      simp only [if_true] at hcl ⊢
+      rw [parsePartial_encInfo hs .info6Ex (by decide) (f.hdr.withClients (f.chunk 0)) 0 (hh.withClients _) hcl (fun h => by cases h)]
+      have : f.no 0 = 0 := (hno 0 hi).1.2 rfl
+      simp [exPart, this, maskFor]
+    · simp only [h0, if_false] at hcl ⊢
+      have hne : f.no i ≠ 0 := fun e => h0 ((hno i hi).1.1 e)
+      have hlt := (hno i hi).2
+      rw [parsePartial_encMore hs (by omega) f.hdr.token hh.token (f.no i) (by omega) (by omega) (f.chunk i) hcl]
+      simp [exPart, hne]
+
+end Family
+
 end Tw.ServerBrowse
